@@ -11,6 +11,18 @@ at call time x grouping of the later completions into batches between quiescent 
 loop is quiesced and (ready, successful, exception id, value) of the combined result is
 recorded; TLC judges every observation against AsyncAbs.
 
+Functions that hand back a *result object*: the continuation given to ContinueWith (on and
+off the hub) returns either the source it was handed or a second result r that is already
+successful / already failed at call time, completes (value or exception) before the source,
+between the source's completion and the run, after the run, or never.  The statement says
+ContinueWith "captures its result": the observation encodes "the value IS result number k"
+as an identity token (vk = "ar", val = [k]), distinct from whatever r holds, and AsyncAbs
+requires exactly that token from the first quiescent point after the run on, whatever
+happens to r.  Map (the flattening combinator) gets the opposite cases: its function
+returns a result that never completes, or a chain of two nested results, and the Map result
+must be the innermost value / first failure (pending while the chain is unresolved).
+Run / RunInline / SafeLink are not named by the statement and get no clause.
+
 Direction A: TLC -simulate behaviours of AsyncImpl are single-stepped on the real
 combinators (RunTask = exactly one loop callback); after every step the observation of the
 real result and the number of queued loop callbacks are compared with the spec state.
@@ -38,10 +50,14 @@ ASSUMPTIONS = [
   'a result whose .exception is set counts as failed for its consumers even if gevent still reports '
   'successful() (re-settable AsyncResult): the observation is (ready, successful, exception, value)',
   'exhaustive within n <= 4 inputs (quick) / n <= 5 (thorough), chains of <= 4 / 5 nested results',
+  'a continuation that returns a result object returns one the driver knows (the source or a second scripted '
+  'result); "the value is that object" is decided by identity (`is`) in the driver and travels as a token',
 ]
 RULE = {'C17': 'systematic enumeration (inputs x outcomes x completion orders x pre-completed prefix x batching of '
                'completions between quiescent points) for WhenAll, WhenAny, Unwrap chains, ContinueWith '
-               '(on_hub both ways, returning/raising) and Map (plain/raising/result-returning function); plus '
+               '(on_hub both ways, returning a plain value / raising / returning a result object that is complete, failed, '
+               'completed at any later point or never) and Map (plain/raising/result-returning function, also never '
+               'completing and two-level chains); plus '
                'seeded random batched schedules with partial loop stepping at the largest n; non-trivial = at '
                'least two inputs/levels or a continuation/function; distinct by canonical event list'}
 EXHAUSTIVE = {('C17', 'quick'): True, ('C17', 'thorough'): True}
@@ -56,6 +72,9 @@ def models(prop, tier):
     dict(module='AsyncImpl', cfg='AsyncImpl_any_orig.cfg', expect_violation='NoViolation', workers=4,
          what='WhenAny as in the unchanged tree: design-level counterexample to C17.whenAny (reproduced on the '
               'real code by direction B)'),
+    dict(module='AsyncImpl', cfg='AsyncImpl_follow.cfg', expect_violation='NoViolation', workers=2,
+         what='NOT the code: ContinueWith through a _SafeLinkHelper that follows (links to) a result returned by '
+              'the continuation instead of storing it: design-level counterexample to C17.continueWith'),
   ]
   if tier != 'quick':
     ms += [
@@ -137,14 +156,36 @@ def _unwrap_cases(L, batching):
           yield {'comb': 'Unwrap', 'n': L, 'ops': ops}
 
 
+def _sched_cases(kinds):
+  """kinds: {result number: kind}; results not in it are never completed.  Every completion order x
+  prefix already complete at call time x batching of the rest between quiescent points."""
+  for perm in itertools.permutations(sorted(kinds)):
+    sets = [['set', i, kinds[i]] for i in perm]
+    for k in range(len(sets) + 1):
+      for ops in _ops_from(sets[:k], sets[k:], True):
+        yield ops
+
+
 def _cw_cases():
   for out in ('ok', 'fail'):
     for on_hub in (True, False):
-      for fnk in ('ret', 'raise', 'raiseb'):
-        s = [['set', 1, out]]
-        for k in (0, 1):
-          for ops in _ops_from(s[:k], s[k:], True):
-            yield {'comb': 'ContinueWith', 'n': 1, 'ops': ops, 'on_hub': on_hub, 'fnk': fnk}
+      for fnk in ('ret', 'raise', 'raiseb', 'retself'):
+        # retself: the continuation hands back the (complete) source object it was given
+        for ops in _sched_cases({1: out}):
+          yield {'comb': 'ContinueWith', 'n': 1, 'ops': ops, 'on_hub': on_hub, 'fnk': fnk}
+      # the continuation hands back a second result object (a follow-up operation): complete or failed at any
+      # point relative to the call, the source's completion and the run of the continuation -- or never
+      for inner in ('ok', 'fail', None):
+        kinds = {1: out}
+        if inner:
+          kinds[2] = inner
+        for ops in _sched_cases(kinds):
+          yield {'comb': 'ContinueWith', 'n': 2, 'ops': ops, 'on_hub': on_hub, 'fnk': 'retar'}
+  # the source itself never completes: the continuation must not run, whatever happens to result 2
+  for on_hub in (True, False):
+    for inner in ('ok', 'fail'):
+      for ops in _sched_cases({2: inner}):
+        yield {'comb': 'ContinueWith', 'n': 2, 'ops': ops, 'on_hub': on_hub, 'fnk': 'retar'}
 
 
 def _map_cases():
@@ -161,6 +202,14 @@ def _map_cases():
         for k in range(3):
           for ops in _ops_from(sets[:k], sets[k:], True):
             yield {'comb': 'Map', 'n': 2, 'ops': ops, 'fnk': 'nest'}
+    # the result the function returns never completes
+    for ops in _sched_cases({1: out}):
+      yield {'comb': 'Map', 'n': 2, 'ops': ops, 'fnk': 'nest'}
+  # the function returns a result that completes with another result (chain 2 -> 3), or a level never completes
+  for kinds in ({1: 'ok', 2: 'nest', 3: 'ok'}, {1: 'ok', 2: 'nest', 3: 'fail'}, {1: 'ok', 2: 'nest'},
+                {2: 'nest', 3: 'ok'}, {2: 'nest', 3: 'fail'}):
+    for ops in _sched_cases(kinds):
+      yield {'comb': 'Map', 'n': 3, 'ops': ops, 'fnk': 'nest'}
 
 
 def _random_case(rng, comb, n):
@@ -186,6 +235,8 @@ def _random_case(rng, comb, n):
     elif r < 0.6:
       ops.append(['step', rng.randint(1, 2)])
   ops.append(['q'])
+  if comb == 'ContinueWith':
+    return {'comb': comb, 'n': n, 'ops': ops, 'on_hub': rng.random() < 0.5, 'fnk': 'retar'}
   return {'comb': comb, 'n': n, 'ops': ops}
 
 
@@ -212,6 +263,12 @@ def cases(prop, tier, seed):
   for _ in range(nrand // 2):
     out.append(_random_case(rng, 'Unwrap', ufull + 1))
   out.extend(_cw_cases())
+  for _ in range(max(40, nrand // 20)):
+    # partial loop stepping (completions land while the notifier / the spawned greenlet is still queued)
+    c = _random_case(rng, 'ContinueWith', 2)
+    if rng.random() < 0.3:   # result 2 never completes
+      c['ops'] = [o for o in c['ops'] if not (o[0] == 'set' and o[1] == 2)]
+    out.append(c)
   out.extend(_map_cases())
   if tier != 'quick':
     # one forked process per case is dominated by process start-up: pack BUNDLE independent cases
@@ -221,10 +278,15 @@ def cases(prop, tier, seed):
 
 
 # ------------------------------------------------------------------ driver
-def _mk_observer():
+def _mk_observer(ars=None):
+  """`ars`: the result objects of the run by number; a value that IS one of them is encoded as the identity
+  token ('ar', [number]) -- never by looking inside it."""
   def enc_val(v):
     if v is None:
       return 'none', []
+    for i, a in (ars or {}).items():
+      if v is a:
+        return 'ar', [i]
     if isinstance(v, bool):
       return 'other', []
     if isinstance(v, int):
@@ -275,7 +337,7 @@ class _Ctx(object):
     self.ars = {i: AsyncResult() for i in range(1, n + 1)}
     self.res = None
     self.ev = []
-    self.obs = _mk_observer()
+    self.obs = _mk_observer(self.ars)
 
   def set(self, i, kind):
     ar = self.ars[i]
@@ -308,6 +370,11 @@ class _Ctx(object):
         if self.fnk in ('raise', 'raiseb'):
           self.ev.append({'e': 'Run', 'ready': rdy, 'out': 'raise', 'v': 77})
           raise (self.Err if self.fnk == 'raise' else self.BaseErr)(77)
+        if self.fnk in ('retar', 'retself'):
+          # hand back a result OBJECT (2 = a follow-up operation, 1 = the source itself)
+          k = 2 if self.fnk == 'retar' else 1
+          self.ev.append({'e': 'Run', 'ready': rdy, 'out': 'ar', 'v': k})
+          return self.ars[k]
         if _ar.exception is not None:
           w = 200 + int(getattr(_ar.exception, 'vid', 0))
         elif isinstance(_ar.value, int):
@@ -437,7 +504,8 @@ def _spec_obs(st):
   ready = c['exc'] != -1 or val['vk'] != 'unset'
   ok = val['vk'] != 'unset'
   vk = 'none' if val['vk'] == 'unset' else val['vk']
-  return {'ready': ready, 'ok': ok, 'exn': c['exc'], 'vk': vk, 'val': list(val['val']) if vk in ('int', 'list') else []}
+  return {'ready': ready, 'ok': ok, 'exn': c['exc'], 'vk': vk,
+          'val': list(val['val']) if vk in ('int', 'list', 'ar') else []}
 
 
 def _slim(st):
@@ -476,9 +544,6 @@ def _replay_one(script):
         if st['phase'] == 'post':
           spec['obs'] = _spec_obs(st)
           real['obs'] = cx.obs(cx.res)
-          if real['obs']['vk'] == 'other' and spec['obs']['vk'] == 'ar':
-            real['obs']['vk'] = 'ar'
-            spec['obs']['val'] = []
           spec['runs'] = len(st['aruns'])
           real['runs'] = sum(1 for e in cx.ev if e['e'] == 'Run')
       except Exception:  # projection unavailable: degrade to the observable-only oracle
